@@ -9,7 +9,7 @@ RULE = ('p = partial(f, *a, **k) for f in U({a,b,c},3) (quick: 350 seeded signat
         '0..len+1 x every keyword set of size <= 2 (+ a foreign keyword when f has **kwargs) + nested partials; both '
         'signatures.signature(p) and sigtools.signature(p) are compared with the set of shapes on which really calling p '
         'raises no TypeError (non-colliding shapes), plus the structural clauses; partials of forwarding wrappers '
-        '(callee bound positionally / by keyword) are executed and compared with mask(forwards(outer, callee), 1). '
+        '(callee bound positionally / by keyword) (half of them through a sigtools.modifiers wrapper object) are executed and compared with mask(forwards(outer, callee), 1). '
         'Non-trivial: every retrieval that returned; distinct by (retrieval, function parameters, binding).')
 ASSUMPTIONS = ['bound keywords naming a positional-only parameter are excluded (version-dependent, stated for C03)',
                'where inspect.signature itself refuses a partial object, a ValueError/TypeError from retrieval is accepted']
